@@ -91,6 +91,43 @@ class SolveH(_B):
         return list(st["model"].solve([dict(st["weights"]), {}], st["solver"], try_reduce_before=case["reduce"],
                                       include_virtual_variables=case["virtual"]))
 
+    def concretise(self, case, k, model, c, st):
+        from .common import _mv
+        cols = st["cols"]
+        return {"case": dict(case),
+                "bounds": [[_mv(model, x.bounds.lower.t), _mv(model, x.bounds.upper.t)] for x in cols[:case["vars"]]],
+                "gen": [bool(_mv(model, g.t)) if hasattr(g, "t") else bool(g) for g in st["gens"]],
+                "weights": {str(kk): _mv(model, vv.t) for kk, vv in st["weights"].items()}}
+
+    def replay(self, w):
+        """the same clauses on a real model through the real to_ge_polyhedron, with a recording solver"""
+        import numpy as np
+        import puan
+        import puan.logic.plog as pg
+        case = w["case"]
+        leaves = [puan.variable(f"x{j}", (b[0], max(b))) for j, b in enumerate(w["bounds"])]
+        comps = [pg.Any(f"c{j}a", f"c{j}b", variable=None if g else f"C{j}") for j, g in enumerate(w["gen"])]
+        model = pg.All(*leaves, *comps, variable="TOP")
+        rec = {}
+
+        def solver(p, objs):
+            rec["p"], rec["objs"] = p, [list(map(int, o)) for o in objs]
+            return [(np.arange(100, 100 + p.A.shape[1]), 9, 5), (None, 0, 4)]
+        weights = {k_: v for k_, v in w["weights"].items()}
+        out = list(model.solve([dict(weights), {}], solver, include_virtual_variables=case["virtual"]))
+        cols = list(rec["p"].A.variables)
+        bad = []
+        for j, col in enumerate(cols):
+            if rec["objs"][0][j] != weights.get(col.id, 0) or rec["objs"][1][j] != 0:
+                bad.append(f"solve/objective[{j}]")
+        want = {cc.id: 100 + j for j, cc in enumerate(cols)
+                if isinstance(cc, puan.variable) or case["virtual"] or not getattr(cc, "generated_id", False)}
+        if out[0][0] != want:
+            bad += ["solve/result.key[0]", "solve/result.value[0]"]
+        if out[1][0] != {}:
+            bad.append("solve/result.none")
+        return {"violated": bad, "detail": {"model": model.to_text(), "objective": rec["objs"], "result": str(out[0][0])}}
+
     def ensures(self, c, st, res):
         case, rec, cols, gens, w, sol = c.state_case, st["rec"], st["cols"], st["gens"], st["weights"], st["sol"]
         out = [("solve/poly", rec.get("poly") is st["poly"] and rec.get("tgp") == (True, case["reduce"]))]
